@@ -101,8 +101,8 @@ func TestVerifBoundedShouldBuild(t *testing.T) {
 func TestVerifBoundedReadImports(t *testing.T) {
 	n := verifBound(3, 4)
 	boms := []string{"", "\xef\xbb\xbf"}
-	headers := []string{"package p\n", "// c\npackage p;", "/* c */ package p\n\n"}
-	specs := []string{`import "a"` + "\n", `import x "b/c"` + "\n", "import . `d`;", `import _ "e"` + "\n", "import (\n\t\"f\"\n\ty \"g\"\n)\n", "import ( \"h\"; . \"i\" )\n", "// c\n", "/* import \"no\" */\n", "import ()\n"}
+	headers := []string{"package p\n", "// c\npackage p;", "/* c */ package p\n\n", "/** doc **/\npackage p\n"}
+	specs := []string{`import "a"` + "\n", `import x "b/c"` + "\n", "import . `d`;", `import _ "e"` + "\n", "import (\n\t\"f\"\n\ty \"g\"\n)\n", "import ( \"h\"; . \"i\" )\n", "// c\n", "/* import \"no\" */\n", "import ()\n", "/** b **/\n", "/***/", "/* * / **/ "}
 	tails := []string{"", "var x = 1\n", "func f() {}\n", "type T struct{}\n"}
 	cases, nontrivial, fails := 0, 0, 0
 	first := ""
